@@ -97,7 +97,7 @@ def oracle(ctx):
         if a != ('ok true' if is_spec(p) else 'ok false'):
             res.oracle_failures.append(dict(op='specifier\t' + hx(p), input=p, impl_output=a, oracle_expectation=f'specifier={is_spec(p)}'))
     # call sites on the real converters
-    rels = ['./x', 'x/y', '../up', './a/../b//c/', 'a/./b', '%h/x', '/abs/./p/..', 'plain']
+    rels = ['./x', 'x/y', '../up', './a/../b//c/', 'a/./b', '%h/x', '/abs/./p/..', 'plain', '.', '..', '.cache/app', '..data/x', '.hidden', './', '../', './/x', '...']
     cases = []
     for _ in range(300 if ctx.thorough else 80):
         unitdir = rnd.choice(['/q', '/q/sub dir', '/etc/containers/systemd/users/1000'])
